@@ -580,14 +580,20 @@ class Swap(Contract):
             out += [('r', obj + r) for r in DERIVED] + [('len', obj + r) for r in DERIVED] + [('s', obj + '._integral')]
         return out
 
+    ghosts = {'k': 'int'}
+
     def ensures(self, cx):
         o = cx.arg('other').name
+        k = cx.g('k')
         out = []
         for r in DERIVED:
             # a phase space and everything derived from its data travel together (statement of C09: same data,
-            # projections and integral, therefore the same moments)
-            out.append((f'this{r}', {'C09'}, cx.arr('this' + r) == cx.old.arr(o + r)))
-            out.append((f'other{r}', {'C09'}, cx.arr(o + r) == cx.old.arr('this' + r)))
+            # projections and integral, therefore the same moments).  Element by element inside the container (ghost index),
+            # so that an implementation exchanging the elements instead of the containers satisfies it as well
+            ln = cx.old.len('this' + r)
+            inr = And(k >= 0, k < ln)
+            out.append((f'this{r}', {'C09'}, And(cx.len('this' + r) == cx.old.len(o + r), Implies(inr, cx.sel('this' + r, k) == cx.old.sel(o + r, k)))))
+            out.append((f'other{r}', {'C09'}, And(cx.len(o + r) == cx.old.len('this' + r), Implies(inr, cx.sel(o + r, k) == cx.old.sel('this' + r, k)))))
         out.append(('integral', {'C09'}, And(cx.rf('this._integral') == cx.old.rf(o + '._integral'), cx.rf(o + '._integral') == cx.old.rf('this._integral'))))
         return out
 
@@ -603,13 +609,17 @@ class Assign(Contract):
     requires = Swap.requires
     assigns = Swap.assigns
 
+    ghosts = {'k': 'int'}
+
     def ensures(self, cx):
         o = cx.arg('other').name
-        out = [(f'this{r}', {'C09'}, cx.arr('this' + r) == cx.old.arr(o + r)) for r in DERIVED]
+        k = cx.g('k')
+        out = [(f'this{r}', {'C09'}, And(cx.len('this' + r) == cx.old.len(o + r),
+                                        Implies(And(k >= 0, k < cx.old.len(o + r)), cx.sel('this' + r, k) == cx.old.sel(o + r, k)))) for r in DERIVED]
         out.append(('integral', {'C09'}, cx.rf('this._integral') == cx.old.rf(o + '._integral')))
         return out
 
-    calls = {'vfps::PhaseSpace::swap': Use(Swap())}
+    calls = {'vfps::PhaseSpace::swap': Use(Swap(), inst=lambda cx: [{'k': cx.ghost_of('k')}])}
 
 
 # =========================================================================== text start distribution (PhaseSpaceFactory)
